@@ -180,7 +180,7 @@ func c05(args []string) {
 		}
 		return rng.Int63n(1<<38) - 1<<37
 	}
-	levels := []slog.Level{slog.LevelDebug, slog.LevelInfo}
+	levels := []slog.Level{slog.LevelDebug, slog.LevelInfo, slog.LevelDebug, slog.LevelWarn, slog.LevelInfo, slog.LevelError} // (the level is configuration: decoding and the displayed numbers do not depend on it)
 	n := 0
 	emit := func(typ int, x, y, z int64, h uint64, trailing int, cls string) {
 		tb := make([]byte, trailing)
@@ -189,10 +189,10 @@ func c05(args []string) {
 		}
 		p := build1005(typ, uint64(rng.Intn(4096)), uint64(rng.Intn(64)), uint64(rng.Intn(16)), x, uint64(rng.Intn(4)), y, uint64(rng.Intn(4)), z, h, tb, typ == 1006)
 		f := tr.Frame(p)
-		lv := levels[n%2]
+		lv := levels[n%len(levels)]
 		c05Call(w, f, typ, lv, "decoder", cls)
 		if n%3 == 0 {
-			c05Call(w, f, typ, levels[(n+1)%2], "handler", cls)
+			c05Call(w, f, typ, levels[(n+1)%len(levels)], "handler", cls)
 		}
 		n++
 	}
